@@ -283,18 +283,18 @@ RULE_ADDENDA = {
     "C08": "TestC08EnumScale: 6000 sessions (70000 in thorough) left waiting for their continuation on one connection, then follow-ups for a sample of them (around every power of two), reuse of finished ids, and the replay of a used number in a session that still waits. Scripted handlers reply, three times in four, with the library's reply type for the packet type and a real status: GETDATA, GETUSER or GETPASS when they register a continuation, a final status when they do not. One scripted handler call in six sends two or three replies to the one request; each takes the next sequence number and counts as sent. TestC08EnumSlowSession: two sessions wait for their continuation while 16.5 s of real time pass (65 s in thorough) and other sessions come and go; then one is continued and finished, and a used number is replayed in the other.",
     "C20": "Continuations may arrive in the clear on a session that was opened obfuscated. A wait that runs into the watchdog inspects the goroutine dump: a server goroutine stuck on a lock inside tacquito while the harness is idle is the verdict server-goroutine-deadlocked (also in C07, C08 and every check using the scripted connection driver). TestC20EnumBurst: bursts of 8-24 connections (half refused at admission) that all end at the same moment on a lock-free transport, one server per burst, gauges compared after Serve has returned; 3000 bursts in quick, 40000 in thorough (schedule-dependent: makes a non-atomic increment/decrement pair likely to show, cannot force it). Sessions may begin at sequence number 255 (the reply would be 256), with or without a continuation. Connection histories also end in injected transport faults: a read that fails with a connection reset (at a packet boundary or inside a packet) and a connection whose every Write fails (the peer is gone when the reply is written), with or without a session left open. TestC20EnumScale: 6000 sessions (70000 in thorough) left waiting on one connection, a few of them finished, then EOF, a connection reset or the shutdown. Replies of the scripted handler are real authentication replies (a prompt status when the session goes on, PASS or FAIL when it ends). One case in three has a second server in the process that holds one or three connections, each with a waiting session, open from before the resting values are read until after the last comparison.",
     "C06": "One later request in three of a multi-packet exchange changes the flag octet and/or the minor version: the reply mirrors the request it answers.",
-    "C11": "Match conditions include an empty-string value (the attribute must be present and empty) and no values at all (the attribute must be present). One case in four has a second user entry of the same name for the other scope with rules of its own; questions are repeated from a second connection coming from that scope; one case in four loads a second policy into the running server in mid-case and judges later requests, sent on new connections, by it. Patterns include counted repetition ({n}, {n,m}, invalid counts), inline flags, perl classes, lazy quantifiers, classes and groups, with argument values that match and just miss them. One command request in twelve is a long command line: 20 to 60 arguments of 100 to 240 octets in front of the drawn ones; patterns include ones that look at the end of the line or for a word anywhere in it. TestC11EnumConcurrent: eight connections of one user ask permitted and denied commands at the same moment, 600 times each, every answer judged by the policy. TestC11EnumPatterns: every kind of pattern (53) alone in a permit rule and in a deny rule, against 31 argument values, deterministic. One case in five has an entry whose name differs from alice's by a blank or a tab, with rules of its own; requests name either.",
+    "C11": "Match conditions include an empty-string value (the attribute must be present and empty) and no values at all (the attribute must be present). One case in four has a second user entry of the same name for the other scope with rules of its own; questions are repeated from a second connection coming from that scope; one case in four loads a second policy into the running server in mid-case and judges later requests, sent on new connections, by it. Patterns include counted repetition ({n}, {n,m}, invalid counts), inline flags, perl classes, lazy quantifiers, classes and groups, with argument values that match and just miss them. One command request in twelve is a long command line: 20 to 60 arguments of 100 to 240 octets in front of the drawn ones; patterns include ones that look at the end of the line or for a word anywhere in it. TestC11EnumConcurrent: eight connections of one user ask permitted and denied commands at the same moment, 600 times each, every answer judged by the policy. TestC11EnumPatterns: every kind of pattern (53) alone in a permit rule and in a deny rule, against 31 argument values, deterministic. One case in five has an entry whose name differs from alice's by a blank or a tab, with rules of its own; requests name either. TestC11EnumSharedGroupValues: the configuration reaches the Loader as a value assembled in Go in which users without rules of their own share ONE first-group value (slices with spare capacity) and inherit from different later groups; every user is asked every command twice.",
     "C13": "A third of the IPv6 probe addresses carry a zone (fe80::1%eth0), which is irrelevant to prefixes. One case in four injects a shared-secret keychain whose lookup fails for some keys: an address hit by it may be refused or fall to the next matching configuration, but what it is bound to must be one configuration's own secret, handler and users. One case in three loads a second generated configuration into the running server and probes the same addresses again, judged by the second configuration. One configuration in four gives its first scopes keychain entries that are different (and have different keys) but read alike when group and key are written one after the other with a separator: (net, core/k1/x), (net/core, k1/x), (net/core/k1, x). One configuration in five has 13, 14, 17, 24 or 40 secret configurations. One configuration in six has a secret configuration whose key is the empty string.",
     "C07": "TestC07EnumBadValues: every kind of configured value that cannot go into an authorization REPLY, asked for alone, twice, pipelined and late. The scripted connection models a write deadline: one step in eight the harness' clock moves on before the reply is written, and a write on a connection with an armed write deadline then fails (on the unchanged tree none is armed). Generated command entries include ones without an action key and with an action that is neither permit nor deny. One step in six is pipelined: a second request (acceptable, bad header, or even sequence number) on a session id of its own arrives in the same read. Sequence faults (even, replayed, jumping, restarted numbers) are aimed at sessions that are in the middle of an exchange one time in eight. TestC07EnumCosts: PAP and ASCII logins of users whose bcrypt hash was made with work factor 10, 12, 15 (14, 16, 17 too in thorough), taken from the option and from the keychain, also pipelined. Keys that the tree under test has beyond the configuration schema the harness models - struct fields found by reflection over config.ServerConfig, option names found as string literals in the sources of cmds/server - are written into two generated documents in three with values of the field's type (on the unchanged tree: the four comment fields). Half of the command authorizations name a user that has command rules. One case in eight gives the scope the empty string as its shared secret. User names of generated worlds include ones that read as another type (true, null, 0, ~, 1e3, no).",
     "C10": "One case in three goes on after the history: a second generated configuration (and keychain) is loaded into the running server and a second history runs on a new connection from the same address, judged by the second configuration. Odd START packets (any action/type/service/minor combination) are mostly logins, optionally without data, and three times in four are followed by what a prompted client would send: the user name if it was missing, then the right password. Authenticator variants include a hash option that is a well-formed hash with something behind it. One aborting CONTINUE in three is built so that its octets are also a well-formed START of an ASCII login that carries the right password. TestC10EnumCancelDuringLogin: a user whose hash has work factor 12; the server's context is cancelled 20, 60 and 150 ms after a PAP or ASCII password (right or wrong) went in: a wrong password is never answered PASS. TestC10EnumConcurrentLogins: eight simultaneous PAP or ASCII logins of one user from eight connections (work factor 12, so the checks overlap), right and wrong passwords mixed: PASS exactly for the right ones. TestC10EnumLargeDocument: 12000 users (documents of several megabytes) in YAML and JSON, loaded from a file and through Unmarshal; users at the beginning, in the middle and at the end log in with the right password and with their group's. TestC10EnumCredentialChanges: one user name with different credentials in two scopes (hash option and keychain), then a reload that changes them; after each passed login the same password is presented where and when it is not valid; expectations are the model's. A connection from a scope that has users and is nevertheless refused counts as a correct login that did not pass.",
     "C15": "The fixed policy's match lists contain empty and blank patterns. A third configuration C (secret configurations renamed so that nothing can be built, no filters) takes part in the reloads, and every lookup round also probes 10.1.9.7, which A and B deny and C cannot serve: any answer but a refusal mixes two configurations. A user with spare-capacity slices, own commands, five services and a group is authorized (command and session) during the reloads, and in half of the cases every document is pushed twice in a row. One case in three reloads by writing the document to a file and calling Load(path), as the file watcher does. Every published configuration is handed to a Loader of the reference stack (which builds providers and authorizers from it) before it is compared with the snapshot taken when it was published.",
     "C19": "One case in three (sequence number 3 or more) continues a session that was opened just before on the same connection and is waiting for its continuation. One case in eight is a body whose announced lengths exceed what is present by exactly 256 (one-octet lengths) or 65536 (two-octet lengths), under each layout of the type. Thorough adds native coverage-guided fuzzing (FuzzC19Seen): the bytes the server sees after removing its pad are the fuzz input, seeded with well-formed requests one or two bytes short or long; same classifier oracle. Sequence numbers run over all odd values 1..255. One case in two (of those that are key mismatches) has 1 to 200 octets of the client's next packet arrive in the same read, behind the mismatching packet.",
     "C01": "Every value is also built the way callers build it - New<Type>(Set<Field>(...)...) for the header and the seven bodies - and must encode (bytes and error) exactly like the struct literal. Thorough adds FuzzC01Rapid: the same property with the generators' choices taken from a coverage-guided fuzzer's byte string (rapid.MakeFuzz). One field in six and one argument in eight is text that means something to a parser instead of generated octets: address literals in legal but non-canonical spellings (2001:DB8::1, 2001:db8:0:0:0:0:0:1, 010.001.002.003, zoned, mapped), padded and signed numbers, mixed-case names, padded, quoted and escape-like text (shared with C02, C03, C04). One authorization or accounting request in 25 has everything at its maximum at once: 254 or 255 arguments of 255 octets and text fields of 0, 1, 170, 171 or 255 octets (shared with C02 and C04). Encodings of 512 octets and more that the library returned are kept (the last eight) and compared with the model again after every later encode. TestC01EnumConcurrent: the round trip of every codec from 64 goroutines at once, each with values of its own (the largest of 40 generated per codec, and argument lists of 200 to 255 entries), 40 rounds.",
-    "C02": "One long argument list in six has 255 octets in every argument (bodies beyond 65536 octets, which the decoders accept). The argument rules of the authorization and accounting bodies (2..255 / 0..255 octets of US-ASCII) are stated in the harness, not read off the library's Validate, and before a value is judged its arguments pass through the decoders of the other argument-carrying bodies. Over-long argument lists also come in a sparse form: 256+ arguments, each as short as the type allows. Thorough adds native fuzzing: FuzzC02DecodeFirst (any bytes, any codec, decode-first oracle) and FuzzC02Rapid (encode-first property driven by the fuzzer through rapid.MakeFuzz). TestC02EnumConcurrent: the round trip of every codec from 64 goroutines at once, each with values of its own (the largest of 40 generated per codec, and argument lists of 200 to 255 entries), 40 rounds.",
+    "C02": "Besides the argument rules the harness states one more rule of a type itself: an authentication START of type ASCII carries a US-ASCII data field (so a change that silences the value's Validate and the encoder alike is still reported). One long argument list in six has 255 octets in every argument (bodies beyond 65536 octets, which the decoders accept). The argument rules of the authorization and accounting bodies (2..255 / 0..255 octets of US-ASCII) are stated in the harness, not read off the library's Validate, and before a value is judged its arguments pass through the decoders of the other argument-carrying bodies. Over-long argument lists also come in a sparse form: 256+ arguments, each as short as the type allows. Thorough adds native fuzzing: FuzzC02DecodeFirst (any bytes, any codec, decode-first oracle) and FuzzC02Rapid (encode-first property driven by the fuzzer through rapid.MakeFuzz). TestC02EnumConcurrent: the round trip of every codec from 64 goroutines at once, each with values of its own (the largest of 40 generated per codec, and argument lists of 200 to 255 entries), 40 rounds.",
     "C09": "One script in six starts so high that one of its packets is numbered 255 (no reply to that one, nothing else changes); in multiplexed mode the packets of two sessions may reach the server in one read. The generated worlds include configured service values that cannot go on the wire (300 octets, not US-ASCII), so that a handler's first reply fails and its fallback reply is used. Half of the authorization sessions name one of the user's own configured services (own or through a group) as a session authorization, and are focused on the user with the most services, so that several sessions of one user ask for different services in either order. TestC09EnumScale: 6000 generated sessions (12000 in thorough) multiplexed on one connection with every first packet sent before any second one, each compared with its transcript alone. Keys that the tree under test has beyond the configuration schema the harness models - struct fields found by reflection over config.ServerConfig, option names found as string literals in the sources of cmds/server - are written into two generated documents in three with values of the field's type (on the unchanged tree: the four comment fields). One multiplexed case in four has a further session that takes the id of a one-packet session (authorization, accounting, PAP) that is over, on the same connection, while the others go on. TestC09EnumSlowLogin: an ASCII login whose prompts are answered over 16.5 s of real time (65 s in thorough) next to one-packet sessions on the same connection; the session alone is not paused. The thorough scale test multiplexes 70000 sessions (sessions that differ in nothing but their id are run alone once; a transcript that the short cut does not predict is run alone for real before it is judged).",
     "C14": "Hostile connections may have every Write fail from the start, or end in a read error instead of EOF. Policy requests also carry arguments that are no attribute-value pairs (no separator, only separators); every log call additionally goes through the reference logger of cmds/server/log. Keys that the tree under test has beyond the configuration schema the harness models - struct fields found by reflection over config.ServerConfig, option names found as string literals in the sources of cmds/server - are written into two generated documents in three with values of the field's type (on the unchanged tree: the four comment fields). Half of the accounting requests carry the standard attributes of RFC 8907 section 8 with values at the edges (0, negative, the limits of every integer width, text), half of those a stop record's task id, elapsed time and traffic counters. TestC14EnumStalledReaders: GOMAXPROCS+3 clients log in and never read their replies (writes to them block); a well-behaved client that logs in afterwards must be answered; if not, the verdict is taken from the goroutine dump (connection goroutines parked inside the server for a second, not on the harness). TestC14EnumAttributeEdges: accounting and authorization requests with every numeric standard attribute at every edge value, deterministic. Hostile streams include whole bodies of 65536 octets (the largest packet), obfuscated or not.",
     "C03": "Three cases in five are preceded by a warm-up exchange on the same connection with the other minor version, on the same or another session id. Client-write cases also go through Client.SendOnly and use Packet literals whose Header.Length is stale (0, 5, n+20, 65536): what is written must follow the body. One server-side case in four has the secret provider hand out keys that are slices of one buffer: the key of another connection, on which a complete exchange takes place first, lies directly in front of the key of the connection that is judged. TestC03EnumOverlap: two connections of one server; A's packet arrives as header, later body, and between the two a complete exchange takes place on B (sizes 96 to 65536 octets); both handlers must receive their cleartext.",
-    "C04": "Request.Fields is also called the way the reference handlers call it, with context keys whose values are present in the request's context. Every input is also decoded into reused receivers (a fully populated value, and the decode of the valid packet the input was derived from): refusal must not depend on the receiver and every decoded field must come from this input.",
+    "C04": "A value decoded without error is also judged by the rules the harness states itself (arguments of 2..255 US-ASCII octets, US-ASCII data in an ASCII START), not only by the value's own Validate. Request.Fields is also called the way the reference handlers call it, with context keys whose values are present in the request's context. Every input is also decoded into reused receivers (a fully populated value, and the decode of the valid packet the input was derived from): refusal must not depend on the receiver and every decoded field must come from this input.",
     "C05": "One server-side case in three has a session waiting for its continuation (the handler registers one for the first packet) while the rest of the stream and the terminal event arrive. The packet that is cut short varies (clear flag, all three types, announced lengths 1/5/6/20) and one stream in four ends exactly behind a header that announces a body. One stream in four ends in a transport error (connection reset) instead of EOF, at a boundary or inside a packet. After an injected deadline expiry in the middle of a packet the connection must be closed; one that goes back to reading is the verdict stall-not-an-error. Client-side cases may be preceded by one or two clients that were used and then closed twice, and be accompanied by a sibling client on a connection of its own that is used afterwards: each receives its own stream. TestC05EnumOverlap: connection A's handler looks at its (long) request when it starts and again before it returns while a long request is received and handled on connection B: what A was given stays what A's peer wrote.",
     "C11": "Command arguments include values that merely end in the <cr>/<CR> line-ending marker.",
     "C12": "One request in three is sent on the session id of the request before it with the next client sequence number (the updates of a task), naming any user. Text may contain octets outside US-ASCII, which makes the request undecodable (ERROR expected). One request in four is a near-copy of the one before it (arguments differing only in white space or in where one argument ends and the next begins). The text pool includes literal escape-like sequences (backslash-u003c, backslash-u0026, backslash-n, double backslash). One case in four also registers the syslog accounter on a unixgram socket owned by the harness (users with a SYSLOG accounter become accountable; the record must be queued on the socket when the reply arrives, exactly once, and decode to the request). One case in two uses a log.Logger over the recording sink (what SetLogSinkDefault builds over a file); in one case in three every 2nd or 3rd write of that logger reports an error after the line was taken. One request in five carries the standard attributes with values at the edges. TestC12EnumConcurrent: eight connections send 1000 different records each at the same moment (the recording sink yields before it renders what it is given); afterwards every acknowledged request has exactly one sink line that decodes to it. Words that the sources of the tree under test contain and testdata/known_literals.txt (the short string literals of the unchanged tree) does not are used as user names: such a user gets the file accounter, and requests name it or nobody.",
